@@ -187,7 +187,10 @@ func (m *Module) Definition(ident string) Definition {
 	}
 	
 	if x, found := m.dataDefsIndex[ident]; found {
-		return x
+		if _, inCase := x.Parent().(*ChoiceCase); !inCase || x.Parent() == Meta(m) {
+			return x
+		}
+		// listed when its choice was added, if-feature might have removed it since
 	}
 	// members of choices are found whichever way they got there
 	// (uses or choice inside a case, augment)
@@ -589,7 +592,10 @@ func (m *ChoiceCase) setWhen(w *When) {
 // Definition can be a data defintion, action or notification
 func (m *ChoiceCase) Definition(ident string) Definition {
 	if x, found := m.dataDefsIndex[ident]; found {
-		return x
+		if _, inCase := x.Parent().(*ChoiceCase); !inCase || x.Parent() == Meta(m) {
+			return x
+		}
+		// listed when its choice was added, if-feature might have removed it since
 	}
 	// members of choices are found whichever way they got there
 	// (uses or choice inside a case, augment)
@@ -888,7 +894,10 @@ func (m *Container) Definition(ident string) Definition {
 	}
 	
 	if x, found := m.dataDefsIndex[ident]; found {
-		return x
+		if _, inCase := x.Parent().(*ChoiceCase); !inCase || x.Parent() == Meta(m) {
+			return x
+		}
+		// listed when its choice was added, if-feature might have removed it since
 	}
 	// members of choices are found whichever way they got there
 	// (uses or choice inside a case, augment)
@@ -1189,7 +1198,10 @@ func (m *List) Definition(ident string) Definition {
 	}
 	
 	if x, found := m.dataDefsIndex[ident]; found {
-		return x
+		if _, inCase := x.Parent().(*ChoiceCase); !inCase || x.Parent() == Meta(m) {
+			return x
+		}
+		// listed when its choice was added, if-feature might have removed it since
 	}
 	// members of choices are found whichever way they got there
 	// (uses or choice inside a case, augment)
@@ -2035,7 +2047,10 @@ func (m *Grouping) Definition(ident string) Definition {
 	}
 	
 	if x, found := m.dataDefsIndex[ident]; found {
-		return x
+		if _, inCase := x.Parent().(*ChoiceCase); !inCase || x.Parent() == Meta(m) {
+			return x
+		}
+		// listed when its choice was added, if-feature might have removed it since
 	}
 	// members of choices are found whichever way they got there
 	// (uses or choice inside a case, augment)
@@ -2485,7 +2500,10 @@ func (m *RpcInput) addIfFeature(i *IfFeature) {
 // Definition can be a data defintion, action or notification
 func (m *RpcInput) Definition(ident string) Definition {
 	if x, found := m.dataDefsIndex[ident]; found {
-		return x
+		if _, inCase := x.Parent().(*ChoiceCase); !inCase || x.Parent() == Meta(m) {
+			return x
+		}
+		// listed when its choice was added, if-feature might have removed it since
 	}
 	// members of choices are found whichever way they got there
 	// (uses or choice inside a case, augment)
@@ -2668,7 +2686,10 @@ func (m *RpcOutput) addIfFeature(i *IfFeature) {
 // Definition can be a data defintion, action or notification
 func (m *RpcOutput) Definition(ident string) Definition {
 	if x, found := m.dataDefsIndex[ident]; found {
-		return x
+		if _, inCase := x.Parent().(*ChoiceCase); !inCase || x.Parent() == Meta(m) {
+			return x
+		}
+		// listed when its choice was added, if-feature might have removed it since
 	}
 	// members of choices are found whichever way they got there
 	// (uses or choice inside a case, augment)
@@ -2958,7 +2979,10 @@ func (m *Notification) addIfFeature(i *IfFeature) {
 // Definition can be a data defintion, action or notification
 func (m *Notification) Definition(ident string) Definition {
 	if x, found := m.dataDefsIndex[ident]; found {
-		return x
+		if _, inCase := x.Parent().(*ChoiceCase); !inCase || x.Parent() == Meta(m) {
+			return x
+		}
+		// listed when its choice was added, if-feature might have removed it since
 	}
 	// members of choices are found whichever way they got there
 	// (uses or choice inside a case, augment)
@@ -3253,7 +3277,10 @@ func (m *Augment) Definition(ident string) Definition {
 	}
 	
 	if x, found := m.dataDefsIndex[ident]; found {
-		return x
+		if _, inCase := x.Parent().(*ChoiceCase); !inCase || x.Parent() == Meta(m) {
+			return x
+		}
+		// listed when its choice was added, if-feature might have removed it since
 	}
 	// members of choices are found whichever way they got there
 	// (uses or choice inside a case, augment)
@@ -4229,7 +4256,10 @@ func (m *Extension) Definition(ident string) Definition {
 	}
 	
 	if x, found := m.dataDefsIndex[ident]; found {
-		return x
+		if _, inCase := x.Parent().(*ChoiceCase); !inCase || x.Parent() == Meta(m) {
+			return x
+		}
+		// listed when its choice was added, if-feature might have removed it since
 	}
 	// members of choices are found whichever way they got there
 	// (uses or choice inside a case, augment)
